@@ -134,6 +134,12 @@ impl InterfaceInner {
                 }
 
                 let payload = f.assemble()?;
+                // The length of an IPv4 datagram is a 16-bit field: fragments that add up to
+                // more than that were not cut from any datagram.
+                if payload.len() > u16::MAX as usize - ipv4_packet.header_len() as usize {
+                    net_debug!("reassembled datagram exceeds the maximum IPv4 length");
+                    return None;
+                }
                 // Update the payload length, so that the raw sockets get the correct value.
                 ipv4_repr.payload_len = payload.len();
                 payload
